@@ -16,7 +16,7 @@ def gen_hist(rnd, n):
         k = rnd.random()
         e = rnd.randint(1, 3)
         if k < 0.25:
-            ops.append({"k": "create", "e": e, "a": rnd.randint(0, 1), "t": 0, "n": ""})
+            ops.append({"k": "create", "e": e, "a": rnd.randint(0, 1), "t": rnd.choice([0, 0, 1, 2]), "n": ""})   # engines are also created by workers
         elif k < 0.45:
             ops.append({"k": "destroy", "e": e, "a": 0, "t": rnd.randint(0, 2), "n": ""})
         elif k < 0.92:
@@ -33,6 +33,10 @@ FIXED = [
     [{"k": "create", "e": 1, "a": 0, "t": 0, "n": ""}, {"k": "create", "e": 2, "a": 1, "t": 0, "n": ""}, {"k": "decl", "e": 1, "a": 0, "t": 0, "n": "x"},
      {"k": "decl", "e": 2, "a": 0, "t": 0, "n": "x"}, {"k": "def", "e": 1, "a": 0, "t": 0, "n": "f"}, {"k": "destroy", "e": 1, "a": 0, "t": 2, "n": ""},
      {"k": "create", "e": 3, "a": 0, "t": 0, "n": ""}, {"k": "decl", "e": 3, "a": 0, "t": 0, "n": "y"}],
+    # a shared engine made by main plus a private engine made by a worker, the worker using both
+    [{"k": "create", "e": 1, "a": 0, "t": 0, "n": ""}, {"k": "create", "e": 2, "a": 1, "t": 1, "n": ""}, {"k": "decl", "e": 1, "a": 0, "t": 1, "n": "x"},
+     {"k": "decl", "e": 2, "a": 0, "t": 1, "n": "x"}, {"k": "decl", "e": 2, "a": 0, "t": 0, "n": "y"}, {"k": "destroy", "e": 2, "a": 0, "t": 1, "n": ""},
+     {"k": "decl", "e": 1, "a": 0, "t": 1, "n": "y"}],
 ]
 
 
@@ -50,6 +54,10 @@ def run(ck, tier, seed):
     if r2.ok:
         raise lib.Infra("sanity: keying the per-thread storage by address must violate Isolated")
     ck.notes.append(f"sanity: with storage keyed by address TLC finds a history violating Isolated ({r2.distinct} states)")
+    r3 = lib.tlc("Engines", "Engines_pinned2", timeout=600)
+    if r3.ok:
+        raise lib.Infra("sanity: keying the per-thread storage by a per-thread creation count must violate Isolated")
+    ck.notes.append(f"sanity: with storage keyed by the creating thread's own creation count TLC finds a history violating Isolated ({r3.distinct} states)")
     work = lib.scratch("c14")
     rnd = random.Random(seed)
     hists = [{"id": i, "ops": ops} for i, ops in enumerate(FIXED)]
@@ -67,7 +75,7 @@ def run(ck, tier, seed):
     for rec in recs:
         o = obs[str(rec["id"])]
         ck.evaluations += 1
-        hk = lambda i: "hist:" + ";".join(f"{x['k']}.e{x['e']}" + (f"@{x['a']}" if x['k'] == 'create' else f".t{x['t']}" if x['k'] in ('decl', 'destroy') else "") +
+        hk = lambda i: "hist:" + ";".join(f"{x['k']}.e{x['e']}" + (f"@{x['a']}t{x['t']}" if x['k'] == 'create' else f".t{x['t']}" if x['k'] in ('decl', 'destroy') else "") +
                                           (f".{x['n']}" if x['n'] else "") for x in rec["ops"][:i + 1])
         if "died" in o:
             ck.violation(hk(len(rec["ops"])), f"process died ({o['died']})", {"history": rec["ops"]})
